@@ -23,6 +23,7 @@ CHECKS = {
     'C19': ('exploration', 'isvalid/validate compared with really calling a side-effect-free stub: functions, bound methods, classmethods, callable instances and 0-2 layer partials over each; signatures with defaults, *args, keyword-only parameters, **kw; near-arity and arbitrary argument lists; body never runs during validation', 'positional-only parameters and builtins outside the statement', 'property-based testing (Hypothesis): generated signatures x callable kinds x partial layers x argument lists; differential oracle (the interpreter own binding, observed by calling the stub)'),
     'C03': ('exploration', 'dict reference model stepped in lock-step with two archives stored side by side and a copy: 13 archive configurations x direct / behind a cache, 29 operation kinds incl. stores that cannot be encoded; full contents, len, keys, membership and == compared after every step', 'alias-free key pools for directory archives (aliasing, slash keys and source-text poison values are open known findings, probed on every run); popitem / iteration order as validity predicates', 'property-based testing (Hypothesis, stratified over archive configuration x direct/cached): generated operation sequences; model-based differential oracle (Python dict) with per-step full-state comparison'),
     'C08': ('exploration', 'two-dict + flag model of cache / attached archive / parked archive stepped against klepto cache over 12 archive kinds: cache ops, direct archive ops (also on parked and replaced archives), dump/load/sync keyed and unkeyed, archived on/off/query, open, archive=, drop; cache, every archive ever attached, archived() and identity of cache.archive compared after every step', 'str keys and scalar values only (accepted by every codec)', 'property-based testing (Hypothesis, stratified over archive kind; half of the histories start from a constructed conflict or off..mutate..on sandwich): model-based oracle written from the property statement, full-state comparison after every step'),
+    'C04': ('exploration', 'dict model of store-time deep copies vs what every reader placement sees (writer handle, new handle, forked process, second interpreter with another hash seed and bytecode caching on, a handle that interpreter kept open) for writers in this process, in forked children that exit, or in a separate interpreter; 10 persistent configurations; rebuild paths (copy from state, dill round trip, cached re-open + load, pickled cache wrapper) and re-decoration sessions served from the archive', 'worker interpreters run with python default bytecode caching; values restricted to each codec domain; sqlite handles do not pickle', 'property-based testing (Hypothesis, stratified over persistent configuration + a session stratum): generated write histories x writer/reader process placements executed with real forked processes and worker interpreters; model-based round-trip oracle (type-exact)'),
     'C05': ('exploration',
             'generated histories over all 12 decorator classes x maxsize spellings (positional/keyword, 0, None, 1..6) x purge x 18 backends; per-call size predicate taken from the property statement; finds violations, cannot prove absence',
             'sizes observed via len(f.__cache__()) and f.info().size; bounded history length (<=60 ops) and pool size (<=8 keys)',
